@@ -125,9 +125,16 @@ class MutationAnalysis:
     # ------------------------------------------------------------------ engine
     def _block(self, stmts, env, fi, s):
         for st in stmts:
+            if '#dead' in env:
+                break
             self._stmt(st, env, fi, s)
 
     def _join(self, a, b):
+        # a branch that returned / raised contributes nothing to the state after the statement
+        if '#dead' in a and '#dead' not in b:
+            return dict(b)
+        if '#dead' in b and '#dead' not in a:
+            return dict(a)
         out = dict(a)
         for k, v in b.items():
             out[k] = set(out.get(k, set())) | set(v)
@@ -157,6 +164,7 @@ class MutationAnalysis:
             if st.value is not None:
                 v = self._ev(st.value, env, fi, s)
                 s.returns |= {r for r in v}
+            env['#dead'] = set()
         elif isinstance(st, ast.If):
             self._ev(st.test, env, fi, s)
             e1 = {k: set(v) for k, v in env.items()}
@@ -176,6 +184,7 @@ class MutationAnalysis:
             for _ in range(2):
                 e1 = {k: set(v) for k, v in env.items()}
                 self._block(st.body, e1, fi, s)
+                e1.pop('#dead', None)
                 j = self._join(env, e1)
                 env.clear()
                 env.update(j)
@@ -199,6 +208,9 @@ class MutationAnalysis:
         elif isinstance(st, ast.Raise):
             if st.exc is not None:
                 self._ev(st.exc, env, fi, s)
+            env['#dead'] = set()
+        elif isinstance(st, (ast.Continue, ast.Break)):
+            env['#dead'] = set()
 
     def _array_like(self, fi, origin, local):
         if origin.startswith('self.'):
